@@ -3,7 +3,9 @@ use crate::common::*;
 use crate::ops_elem::FromLabel;
 
 fn go<N: FromLabel + NumericOps>(op: &str, args: &[Arg]) -> Option<String> {
-    let mkn = |sh: &Vec<usize>, es: &Vec<i128>| Array::new(es.iter().map(|&x| N::conv(false, x)).collect(), sh.clone()).ok();
+    // sym_* cases carry indices into the float pool (NaN, infinities, fractions, huge and tiny values)
+    let (pool, op) = match op.strip_prefix("sym_") { Some(rest) => (true, rest), None => (false, op) };
+    let mkn = |sh: &Vec<usize>, es: &Vec<i128>| Array::new(es.iter().map(|&x| N::conv(pool, x)).collect(), sh.clone()).ok();
     let (a, b) = match args { [Arg::A(s1, e1), Arg::A(s2, e2)] => (mkn(s1, e1)?, mkn(s2, e2)?), _ => return None };
     Some(match op {
         "vdot" => res_arr(&a.vdot(&b)), "inner" => res_arr(&a.inner(&b)), "outer" => res_arr(&a.outer(&b)),
@@ -48,7 +50,9 @@ fn go15(op: &str, args: &[Arg]) -> Option<String> {
 
 pub fn dispatch(op: &str, ty: &str, args: &[Arg]) -> Option<String> {
     if let "solve" | "det" | "qr" | "norm" = op { return Some(go15(op, args).unwrap_or_else(|| "bad:input".to_string())); }
-    match op { "vdot" | "inner" | "outer" | "matmul" | "matmul_pinned" | "dot" | "dot_pinned" => {} _ => return None }
-    let r = match ty { "i32" => go::<i32>(op, args), "i64" => go::<i64>(op, args), "f64" => go::<f64>(op, args), "f32" => go::<f32>(op, args), _ => None };
+    match op { "vdot" | "inner" | "outer" | "matmul" | "matmul_pinned" | "dot" | "dot_pinned"
+               | "sym_vdot" | "sym_inner" | "sym_outer" | "sym_matmul" | "sym_dot" => {} _ => return None }
+    let r = match ty { "i32" => go::<i32>(op, args), "i64" => go::<i64>(op, args), "f64" | "f64p" => go::<f64>(op, args),
+                       "f32" | "f32p" => go::<f32>(op, args), _ => None };
     Some(r.unwrap_or_else(|| "bad:input".to_string()))
 }
